@@ -11,7 +11,7 @@ META = {
                  "precondition for tick counts); R17.2 in add_time_offset every throw precedes every member write; R17.3 "
                  "operator< / operator<= evaluated over the 3x3 order abstraction of (secs, ticks) equal the lexicographic "
                  "order / its reflexive closure; R17.4 in the four add_* overloads that store a time the earliest-time update "
-                 "(first record or ts < earliest) precedes the store, clear() resets it and the writer subtracts that member. R17.3 also requires that no helper on the way to a comparison converts a 64-bit quantity to a narrower type implicitly.",
+                 "(first record or ts < earliest) precedes the store, clear() resets it and the writer subtracts that member. R17.3 also requires that no helper on the way to a comparison converts a 64-bit quantity to a narrower type implicitly. R17.7: add_time_offset explored path by path in linear arithmetic (affine.py; T = the tick count computed first, comparisons split the cases): on every path that does not throw the tick local holds T + offset, and m_secs / m_ticks are set to that local / rate and % rate.",
     "explanation": "Range analysis, a finite order-abstraction table and ordering rules. Exactness of the tick difference and of "
                    "carry/borrow for all rates is numeric residue and is not decided.",
     "trusted_base": ["clang 14 AST and constant evaluation"],
@@ -346,6 +346,92 @@ def check_offset_formula(run, rule):
     run.floor(rule, 1, "offset formula")
 
 
+def check_offset_arithmetic(run, rule):
+    """R17.7: add_time_offset(offset, rate) moves the time by exactly `offset` ticks.  With T the tick count the function
+    computes first (`secs * rate + ticks`, taken as one symbol), the statements up to the first member store are explored
+    path by path in linear arithmetic (affine.py; comparisons split the cases): on every path that does not throw the tick
+    local holds T + offset, and the members are then set to that local / rate and that local % rate.  get_time_offset
+    returns the difference of two such tick counts, this one minus the reference."""
+    from .. import affine
+    facts = run.facts
+    f = facts.fn("CDNS::Timestamp::add_time_offset", rule=rule)
+    sts = ir.stmts(f["body"])
+    off = "p:%s" % f["params"][0]["n"]
+    rate = "p:%s" % f["params"][1]["n"]
+
+    def is_tick_count(e, obj=None):
+        """secs * rate + ticks of one object"""
+        u = ir.unwrap_all_casts(e)
+        if not (isinstance(u, dict) and u.get("k") == "Bin" and u.get("op") == "+"):
+            return None
+        for a, b in ((u["lhs"], u["rhs"]), (u["rhs"], u["lhs"])):
+            a_ = ir.unwrap_all_casts(a)
+            while isinstance(a_, dict) and a_.get("k") == "Paren":
+                a_ = ir.unwrap_all_casts(a_.get("e"))
+            if isinstance(a_, dict) and a_.get("k") == "Bin" and a_.get("op") == "*":
+                ps = [path(a_["lhs"]), path(a_["rhs"])]
+                pb = path(b)
+                if pb and pb[-1] == "m_ticks" and any(p_ and p_[-1] == "m_secs" and p_[:-1] == pb[:-1] for p_ in ps) and any(p_ and p_[0].startswith("p:") and len(p_) == 1 for p_ in ps):
+                    return pb[:-1]
+        return None
+    idx = None
+    tick_key = None
+    for i, st in enumerate(sts):
+        if st.get("k") == "Decl":
+            for v in st.get("vars", []):
+                if v.get("init") is not None and is_tick_count(v["init"]) == ("this",):
+                    idx, tick_key = i, "l:%s#%s" % (v["n"], v["id"])
+    stores = [i for i, st in enumerate(sts) if isinstance(unwrap(st), dict) and unwrap(st).get("k") == "Bin" and unwrap(st).get("op") == "=" and
+              path(unwrap(st).get("lhs")) and path(unwrap(st)["lhs"])[0] == "this"]
+    if idx is None or not stores or stores[0] <= idx:
+        run.ob(rule, "add_time_offset:moves-by-offset", None, f, f["line"], "the tick count `m_secs * rate + m_ticks` in a local, followed by the member stores, was not found")
+        return
+    env = {tick_key: affine.Lin.sym("T")}
+    affine.THROW_IS_OUTCOME = True
+    try:
+        try:
+            res = affine.explore(sts[idx + 1:stores[0]], env, lambda *a: False)
+        finally:
+            affine.THROW_IS_OUTCOME = False
+    except affine.NotAffine as ex:
+        run.ob(rule, "add_time_offset:moves-by-offset", None, f, f["line"], "not linear: %s" % ex)
+        return
+    want = affine.Lin.sym("T") + affine.Lin.sym(off)
+    n = 0
+    for out, e, events, ass in res:
+        if out == "throw":
+            continue
+        n += 1
+        got = e.get(tick_key)
+        d = (got - want) if got is not None else None
+        ok = d is not None and d.is_const() and d.c == 0
+        cases = " && ".join("%s %s" % (_lin_show(a[0]), a[1]) for a in ass) or "always"
+        run.ob(rule, "add_time_offset:moves-by-offset#%d" % n, ok, f, sts[stores[0]].get("l", f["line"]),
+               "for %s the new tick count is T + offset" % cases if ok else
+               "for %s the new tick count is %s, not T + %s: the time is moved by something other than the offset" % (cases, _lin_show(got) if got is not None else "?", off[2:]))
+    if n == 0:
+        run.ob(rule, "add_time_offset:moves-by-offset", False, f, f["line"], "every path through add_time_offset throws")
+    # the members take the quotient and the remainder of that local
+    for mem, op in (("m_secs", "/"), ("m_ticks", "%")):
+        st = [unwrap(sts[i]) for i in stores if path(unwrap(sts[i])["lhs"]) == ("this", mem)]
+        r_ = ir.unwrap_all_casts(st[-1]["rhs"]) if st else None
+        ok = isinstance(r_, dict) and r_.get("k") == "Bin" and r_.get("op") == op and path(r_["lhs"]) == (tick_key,) and path(r_["rhs"]) == (rate,)
+        run.ob(rule, "add_time_offset:%s=ticks%srate" % (mem, op), ok if st else None, f, st[-1].get("l", f["line"]) if st else f["line"],
+               "%s is the new tick count %s the rate" % (mem, op) if ok else "%s is set to %s" % (mem, show(st[-1]["rhs"]) if st else "nothing"))
+
+
+def _lin_show(l):
+    if l is None:
+        return "?"
+    parts = []
+    for k, v in sorted(l.t.items()):
+        nm = k[2:].split("#")[0] if k[:2] in ("p:", "l:") else k
+        parts.append(("%s" % nm) if v == 1 else ("-%s" % nm) if v == -1 else "%d*%s" % (v, nm))
+    if l.c or not parts:
+        parts.append(str(l.c))
+    return " + ".join(parts).replace("+ -", "- ")
+
+
 def check(run):
     check_arith(run, "R17.1")
     check_refusal_order(run, "R17.2")
@@ -353,3 +439,4 @@ def check(run):
     check_earliest(run, "R17.4")
     C01.check_time_reference(run, "R17.5")
     check_offset_formula(run, "R17.6")
+    check_offset_arithmetic(run, "R17.7")
